@@ -319,7 +319,10 @@ class Rotation:
         d = os.path.join(self.root, 'logs')
         shutil.rmtree(d, ignore_errors=True)
         name = 'node'
-        sub = os.path.join(d, name)
+        # the handler is made directly, or by a module with the HasComlog mixin from the general configuration (comlog_days)
+        route = rng.choice(['direct', 'direct', 'comlog'])
+        base = d if route == 'direct' else os.path.join(d, 'root', 'comlog', 'eq')
+        sub = os.path.join(base, name)
         os.makedirs(sub)
         today = datetime.date(2024, 3, 1) + datetime.timedelta(days=rng.randint(0, 400))
         ndated = rng.choice([0, 1, 2, 3, 5, 8, 12])
@@ -338,9 +341,31 @@ class Rotation:
                 f.write('foreign\n')
         keep = rng.choice([0, 1, 2, 3, 5, 7, 10])
         self.clock.day = today
-        h = self.FL.LogfileHandler(d, name, max_days=keep)
+        if route == 'direct':
+            h = self.FL.LogfileHandler(d, name, max_days=keep)
+        else:
+            import frappy.lib
+            from frappy.modules import Module
+            from vlib import nodes
+            how = rng.choice(['int', 'str', 'unset'])
+            if how == 'unset':
+                keep = 7          # the documented default of comlog_days
+            gc = frappy.lib.generalConfig
+            saved = gc._config, self.FL.logger.logdir, self.FL.logger.rootname
+            try:
+                gc.testinit(logdir=d, comlog=True, **({} if how == 'unset' else {'comlog_days': keep if how == 'int' else str(keep)}))
+                self.FL.logger.logdir, self.FL.logger.rootname = d, 'root'
+                srv = nodes._Srv()
+                srv.secnode = type('SN', (), {'name': 'eq', 'equipment_id': 'eq'})()
+                mod = nodes.make_module(type('CoMod', (self.FL.HasComlog, Module), {'__module__': __name__}), name, srv=srv)
+                mod.earlyInit()
+                h = mod._comLog.handlers[0]
+            finally:
+                gc._config, self.FL.logger.logdir, self.FL.logger.rootname = saved
+            r.count('handlers_made_from_the_general_configuration')
+            route = f'comlog/{how}'
         rec_ = self.logging.LogRecord('x', 20, __file__, 1, 'hello %s', ('w',), None)
-        case = {'sub': 'rotation', 'dated_ages': ages, 'foreign': foreign, 'retention': keep, 'steps': []}
+        case = {'sub': 'rotation', 'route': route, 'dated_ages': ages, 'foreign': foreign, 'retention': keep, 'steps': []}
         try:
             h.emit(rec_)       # opens today's file
             nrot = rng.randint(1, 5)
